@@ -29,6 +29,7 @@ type Op struct {
 	Ids     []int  `json:"ids,omitempty"`
 	Kc      int    `json:"kc,omitempty"` // worker: cancel after kc tree-manager calls; -1 = never
 	Fail    []int  `json:"fail,omitempty"`
+	Sfail   []int  `json:"sfail,omitempty"` // worker: ids whose tree-storage Delete fails (transient storage error) during this run
 }
 
 type Desc struct {
@@ -71,7 +72,7 @@ func u64s(v []int) []uint64 {
 const maxU = 8
 
 var curWorld *World
-var famBound bool
+var famBound, famFault bool
 
 var tNew, tClose, tRestart, tObs time.Duration
 
@@ -80,6 +81,7 @@ type stepRes struct {
 	order []int // worker / race: recorded GetQueued order
 	obs   []Obs
 	fired bool // frace / prace: the operation reached the stage and the deletion was recorded
+	faults, retries, cacheHits int // worker: storage-delete faults that fired, DeleteTree calls for an id with an earlier fault, ... that found the sync tree cached
 }
 
 func universe(u int) []string {
@@ -185,10 +187,11 @@ func runHistory(f *Fixtures, d Desc) (res []stepRes, panicked interface{}) {
 			w.SettingsInit()
 			sr.out = "OOk"
 		case "worker":
-			order := w.Worker(o.Kc, oids(o.Fail))
+			order := w.WorkerFaults(o.Kc, oids(o.Fail), oids(o.Sfail))
 			for _, s := range order {
 				sr.order = append(sr.order, unoid(s))
 			}
+			sr.faults, sr.retries, sr.cacheHits = w.tm.faultHits, w.tm.retries, w.tm.cacheHits
 			sr.out = "OWorker"
 		case "restart":
 			t2 := time.Now()
@@ -236,6 +239,9 @@ func opTerm(o Op, sr stepRes) string {
 		k := uint64(never)
 		if o.Kc >= 0 {
 			k = uint64(o.Kc)
+		}
+		if len(o.Sfail) > 0 {
+			return vlib.App("OpWorkerS", vlib.NList(u64s(sr.order)), vlib.N(k), vlib.NList(u64s(o.Fail)), vlib.NList(u64s(o.Sfail)))
 		}
 		return vlib.App("OpWorker", vlib.NList(u64s(sr.order)), vlib.N(k), vlib.NList(u64s(o.Fail)))
 	case "restart":
@@ -403,6 +409,12 @@ func (g *hgen) randomOp() {
 		}
 		if r.Chance(1, 5) {
 			o.Fail = []int{g.pick()}
+		}
+		if r.Chance(1, 5) { // transient storage errors at the tree's Delete during this run
+			o.Sfail = []int{g.pickCreated()}
+			if r.Chance(1, 4) {
+				o.Sfail = append(o.Sfail, g.pick())
+			}
 		}
 		g.add(o)
 		g.histLen += 3
@@ -586,11 +598,167 @@ func genBound(r *vlib.Rand) Desc {
 	return Desc{Kind: "hist", U: u, Ops: g.ops}
 }
 
+// genFault: histories around TRANSIENT STORAGE ERRORS in the deletion worker.  One to three objects with content
+// (sometimes a parent with a bound child) exist locally, their deletion is recorded, and the worker's run hits a
+// storage error at the tree's Delete for one or more of them (objecttree.Storage.Delete fails; the sync tree the tree
+// manager opened for the delete stays in its cache): the object must stay queued with everything stored.  Then -
+// possibly after changes, re-deliveries, fetches of the still queued object, a restart (which empties the cache) or a
+// further faulty run - the worker RETRIES without fault, through the cached sync tree, and the history goes on with
+// restarts (cache gone: everything is rebuilt from the store), fetches / puts / changes for the deleted ids, further
+// runs and ops from the whole alphabet.  Same op alphabet (worker ops carry "sfail"), model and spec.
+func genFault(r *vlib.Rand) Desc {
+	u := 4 + r.Intn(4)
+	g := &hgen{r: r, u: u, h: 1000}
+	perm := r.Perm(u)
+	id := func(k int) int { return perm[k] + 1 }
+	create := func(i, p int, derived bool) {
+		if r.Chance(1, 2) {
+			g.add(Op{K: "put", I: i, P: p, Derived: derived})
+			g.histLen += 2
+		} else {
+			g.h++
+			g.add(Op{K: "fetch", I: i, P: p, Derived: derived, H: g.h, Remote: true})
+			g.histLen += 3
+		}
+		g.created = append(g.created, i)
+	}
+	heads := func(i, n int) {
+		for k := 0; k < n; k++ {
+			g.h++
+			g.add(Op{K: "head", I: i, H: g.h})
+			g.histLen++
+		}
+	}
+	nobj := 1 + r.Intn(3)
+	if nobj > u-1 {
+		nobj = u - 1
+	}
+	objs := make([]int, nobj)
+	withChild := nobj >= 2 && r.Chance(1, 3)
+	for k := range objs {
+		objs[k] = id(k)
+		p := 0
+		if withChild && k == 1 {
+			p = objs[0]
+		}
+		create(objs[k], p, p != 0 && r.Chance(1, 2))
+		heads(objs[k], r.Intn(3))
+		if r.Chance(1, 8) {
+			g.randomOp()
+		}
+	}
+	// the deletion record
+	var ids []int
+	for k, x := range objs {
+		if k == 0 || (r.Chance(2, 3) && !(withChild && k == 1 && r.Chance(1, 2))) {
+			ids = append(ids, x)
+		}
+	}
+	g.add(Op{K: "settings", Ids: ids})
+	g.histLen += len(ids)
+	if r.Chance(1, 6) {
+		g.randomOp()
+	}
+	// the run that hits the storage error(s)
+	tgt := objs[r.Intn(nobj)]
+	sf := []int{tgt}
+	for _, x := range objs {
+		if x != tgt && r.Chance(1, 4) {
+			sf = append(sf, x)
+		}
+	}
+	wk := Op{K: "worker", Kc: -1, Sfail: sf}
+	if r.Chance(1, 8) {
+		wk.Kc = 1 + r.Intn(3)
+	}
+	g.add(wk)
+	g.histLen += 2 + nobj
+	// between the failed attempt and the retry
+	for r.Chance(2, 5) {
+		switch x := r.Intn(8); {
+		case x < 2:
+			heads(tgt, 1)
+		case x < 3:
+			g.add(Op{K: "stale", N: r.Intn(g.histLen + 1)})
+		case x < 4:
+			g.h++
+			g.add(Op{K: "fetch", I: tgt, H: g.h, Remote: true})
+		case x < 5:
+			g.add(Op{K: "worker", Kc: -1, Sfail: []int{tgt}}) // the error is still there
+			g.histLen += 2
+		case x < 6:
+			g.add(Op{K: "restart"})
+			g.histLen = 0
+			if r.Chance(2, 3) {
+				g.add(Op{K: "sinit"})
+			}
+		case x < 7:
+			g.add(Op{K: "settings", Ids: []int{objs[r.Intn(nobj)]}})
+			g.histLen++
+		default:
+			g.randomOp()
+		}
+	}
+	// the retry
+	if !r.Chance(1, 10) {
+		g.add(Op{K: "worker", Kc: -1})
+		g.histLen += 2 + nobj
+	}
+	// afterwards
+	n := 3 + r.Intn(6)
+	restarted := false
+	for k := 0; k < n; k++ {
+		t := tgt
+		if r.Chance(1, 3) {
+			t = objs[r.Intn(nobj)]
+		}
+		switch x := r.Intn(12); {
+		case x < 3 || (k == n-2 && !restarted):
+			g.add(Op{K: "restart"})
+			g.histLen = 0
+			restarted = true
+			if r.Chance(2, 3) {
+				g.add(Op{K: "sinit"})
+			}
+		case x < 5:
+			g.h++
+			g.add(Op{K: "fetch", I: t, H: g.h, Remote: r.Chance(3, 4)})
+		case x < 6:
+			g.add(Op{K: "put", I: t, Derived: r.Chance(1, 4)})
+		case x < 7:
+			heads(t, 1)
+		case x < 8:
+			g.add(Op{K: "stale", N: r.Intn(g.histLen + 1)})
+		case x < 10:
+			g.add(Op{K: "worker", Kc: -1})
+			g.histLen += 2
+		default:
+			g.randomOp()
+		}
+	}
+	return Desc{Kind: "hist", U: u, Ops: g.ops}
+}
+
+// faultRetried: some worker run hit a storage-delete fault and a later run called DeleteTree again for such an id
+func faultRetried(res []stepRes) bool {
+	hit := false
+	for _, sr := range res {
+		if hit && sr.retries > 0 {
+			return true
+		}
+		hit = hit || sr.faults > 0
+	}
+	return false
+}
+
 // non-triviality: some id is tombstoned and afterwards a put / fetch / race / head / stale op is issued for a
 // tombstoned id, or a restart happens while something is tombstoned
 func nontrivial(d Desc, res []stepRes) bool {
 	tomb := map[int]bool{}
 	any := false
+	if faultRetried(res) {
+		return true
+	}
 	for k, o := range d.Ops {
 		if directDeletes(d, res, k) > 0 {
 			return true
@@ -683,6 +851,18 @@ func main() {
 			if directDeletes(d, res, k) > 0 {
 				w.Stat("worker:deleted-an-advertised-unqueued-bound-child")
 			}
+			if op.K == "worker" && len(op.Sfail) > 0 {
+				w.Stat("worker:with-storage-faults")
+				if res[k].faults > 0 {
+					w.Stat("worker:storage-delete-fault-fired")
+				}
+			}
+			if res[k].retries > 0 {
+				w.Stat("worker:retry-after-storage-fault")
+				if res[k].cacheHits > 0 {
+					w.Stat("worker:retry-through-cached-sync-tree")
+				}
+			}
 			if op.K == "frace" || op.K == "prace" {
 				pts := fetchPoints
 				if op.K == "prace" {
@@ -703,6 +883,15 @@ func main() {
 		}
 		if nt {
 			w.Stat("hist:nontrivial")
+		}
+		if faultRetried(res) {
+			w.Stat("hist:storage-fault-then-retry")
+		}
+		if famFault {
+			w.Stat("hist:family-storage-faults")
+			if nt {
+				w.Stat("hist:family-storage-faults:nontrivial")
+			}
 		}
 		if famBound {
 			w.Stat("hist:family-bound-children")
@@ -826,6 +1015,11 @@ func main() {
 			emit(genBound(r.Fork(uint64(3000000 + i))))
 			famBound = false
 		}
+		for i := 0; i < n/5; i++ {
+			famFault = true
+			emit(genFault(r.Fork(uint64(4000000 + i))))
+			famFault = false
+		}
 		for i := 0; i < n/2; i++ {
 			emitSettings(genSettings(r.Fork(uint64(1000000 + i))))
 		}
@@ -836,6 +1030,6 @@ func main() {
 	if os.Getenv("VERIF_C15_TIMING") != "" {
 		fmt.Fprintln(os.Stderr, "timing new/close/restart/obs:", tNew, tClose, tRestart, tObs, "drain:", tDrain, nDrain)
 	}
-	w.Finish("history in which a worker run deletes an advertised bound child that was never queued (NotDeleted -> Deleted directly), or some id is tombstoned and afterwards put/fetch/race/head targets a tombstoned id, or a deletion is recorded at a generated stage of a fetch / put (frace: after the local lookup, before the request, response in flight, deferred storage handed out, entry of the first AddAll, after it; prace: before the tombstone check, before the creating transaction, after it; as queued or as deleted), or a stale re-delivery / restart happens while something is tombstoned; settings (linear log): has a snapshot and more than one arrival batch; sobj (branching settings log through real settings objects at 2-4 replicas): at least one listener call in Rebuild mode; distinct by op list / description",
-		samples, map[string]interface{}{"generator": strings.TrimSpace("c15-v4-staged-sobj-headsync-bound")})
+	w.Finish("history in which a worker run hits a transient storage error at a tree's Delete and a later run retries that id, or a worker run deletes an advertised bound child that was never queued (NotDeleted -> Deleted directly), or some id is tombstoned and afterwards put/fetch/race/head targets a tombstoned id, or a deletion is recorded at a generated stage of a fetch / put (frace: after the local lookup, before the request, response in flight, deferred storage handed out, entry of the first AddAll, after it; prace: before the tombstone check, before the creating transaction, after it; as queued or as deleted), or a stale re-delivery / restart happens while something is tombstoned; settings (linear log): has a snapshot and more than one arrival batch; sobj (branching settings log through real settings objects at 2-4 replicas): at least one listener call in Rebuild mode; distinct by op list / description",
+		samples, map[string]interface{}{"generator": strings.TrimSpace("c15-v5-staged-sobj-headsync-bound-faults")})
 }
